@@ -113,7 +113,7 @@ def run(ctx) -> int:
     L = 7 if ctx.thorough else 6
     sweep(ctx, L, 2)
     ctx.exhaustive.append(f"every reducible/non-reducible layout up to length {L} x 3 strategies x {len(CFGS)} option settings (random verdicts)")
-    loaders_stream(ctx, 12 if ctx.thorough else 4)
+    loaders_stream(ctx, 12 if ctx.thorough else 8)
     return common.decide(ctx, proof, RULE, search=search)
 
 
